@@ -77,12 +77,14 @@ func c18HookConf(kv map[string]string, w *world) string {
 			}
 			msg := err.Error()
 			switch {
-			case strings.HasPrefix(msg, "no plugins"):
+			case isLookupErr(err):
 				return "noentry"
 			case strings.Contains(msg, "plugin type expected"), strings.Contains(msg, "too many type keys"),
 				strings.Contains(msg, "has non-string value"), strings.Contains(msg, "unexpected config type"),
-				strings.Contains(msg, "unexpected key type"):
+				strings.Contains(msg, "unexpected key type"), strings.Contains(msg, "should not be empty"):
 				return "err.parse"
+			case strings.Contains(msg, "error(s) decoding"):
+				return "err.decode" // the decoder (fillConf) refused the user's settings
 			}
 			return "err.other:" + drv.Clean(msg)
 		case p == nil:
@@ -129,10 +131,13 @@ func c18HookConf(kv map[string]string, w *world) string {
 	})
 	w.mu.Lock()
 	defer w.mu.Unlock()
+	if strings.HasPrefix(res, "panic.other:expectation failed: empty name") {
+		res = "panic.emptyname"
+	}
 	return fmt.Sprintf("hc res=%s ev=%d", res, len(w.evs))
 }
 
-var hookConfTypeKeys = []string{"type", "Type", "TYPE", "tYpE", "typ", "types", "type ", "kind"}
+var hookConfTypeKeys = []string{"type", "Type", "TYPE", "tYpE", "typ", "types", "ty_pe", "kind"}
 
 // hookConfGen: per call one case: 0..3 keys that may name the plugin (right and near-miss spellings, string and
 // non-string values, the registered name, its case variant, an unknown name), the user's settings, the three kinds of
